@@ -255,8 +255,88 @@ def run(seed=0, tier="quick", aimed=None, which=("c08", "c09")):
     return {"ok": True, "cases": cases, "failing_input": None, "samples": samples}
 
 
+
+def pipeline(seed, tier):
+    """End-to-end action = reaction on real simulators and interactors: after a full interaction call the grid
+    integral of the force density spread to the fluid plus the net force handed to the body vanishes; FlowForces adds
+    exactly the transferred wrench to the body's external forces / torques (+=, not =)."""
+    import sopht.simulator as sps
+    from sopht.simulator.immersed_body import FlowForces
+
+    cases = 0
+    r = impl.rng(seed, "c08pipeline")
+    cfgs = [("cyl2d", 2), ("rod2d", 2), ("sphere3d", 3), ("rod3d", 3)]
+    for name, dim in cfgs:
+        for reset in (True, False):
+            n = 40 if dim == 2 else 20
+            shape = (n, n + 4) if dim == 2 else (n, n + 2, n + 4)
+            with warnings.catch_warnings():
+                warnings.simplefilter("ignore")
+                if dim == 2:
+                    sim = sps.UnboundedNavierStokesFlowSimulator2D(grid_size=shape, x_range=1.0, kinematic_viscosity=1e-2, with_forcing=True, real_t=np.float64)
+                else:
+                    sim = sps.UnboundedNavierStokesFlowSimulator3D(grid_size=shape, x_range=1.0, kinematic_viscosity=1e-2, with_forcing=True, real_t=np.float64)
+                sim.velocity_field[...] = r.normal(size=sim.velocity_field.shape)
+                centre = np.array([0.5 * sim.x_range, 0.5 * sim.y_range, 0.5 * getattr(sim, "z_range", 0.0)])
+                kw = dict(eul_grid_forcing_field=sim.eul_grid_forcing_field, eul_grid_velocity_field=sim.velocity_field,
+                          virtual_boundary_stiffness_coeff=-float(r.uniform(1e2, 1e3)), virtual_boundary_damping_coeff=-float(r.uniform(1, 10)),
+                          dx=sim.dx, grid_dim=dim, real_t=np.float64, enable_eul_grid_forcing_reset=reset)
+                if name == "cyl2d":
+                    body = ea.Cylinder(start=np.array([centre[0], centre[1], -0.05]), direction=np.array([0.0, 0, 1]), normal=np.array([1.0, 0, 0]),
+                                       base_length=0.1, base_radius=0.15, density=1e3)
+                    it = spi.RigidBodyFlowInteraction(rigid_body=body, forcing_grid_cls=spi.CircularCylinderForcingGrid, num_forcing_points=24, **kw)
+                elif name == "sphere3d":
+                    body = ea.Sphere(center=centre.copy(), base_radius=0.2, density=1e3)
+                    it = spi.RigidBodyFlowInteraction(rigid_body=body, forcing_grid_cls=spi.SphereForcingGrid, num_forcing_points_along_equator=16, **kw)
+                else:
+                    ne = 8
+                    start = centre - np.array([0.25, 0.0, 0.0])
+                    body = ea.CosseratRod.straight_rod(ne, start, np.array([1.0, 0, 0]), np.array([0, 0, 1.0]), 0.5, 0.03, 1000.0,
+                                                       youngs_modulus=1e6, shear_modulus=4e5)
+                    body.position_collection[1] += 0.02 * np.sin(np.linspace(0, 3, ne + 1))
+                    d = body.position_collection[:, 1:] - body.position_collection[:, :-1]
+                    body.lengths[:] = np.linalg.norm(d, axis=0); body.tangents[:] = d / body.lengths
+                    gcls = spi.CosseratRodEdgeForcingGrid if dim == 2 else spi.CosseratRodSurfaceForcingGrid
+                    gkw = {} if dim == 2 else {"surface_grid_density_for_largest_element": 6}
+                    it = spi.CosseratRodFlowInteraction(cosserat_rod=body, forcing_grid_cls=gcls, **gkw, **kw)
+                body.velocity_collection[...] = r.normal(size=body.velocity_collection.shape) * 0.3
+                body.omega_collection[...] = r.normal(size=body.omega_collection.shape) * 0.3
+                if dim == 2:
+                    body.velocity_collection[2] = 0; body.omega_collection[:2] = 0
+                # a history: evaluate, advance the integral, evaluate again
+                it(); it.time_step(dt=1e-2)
+                sim.eul_grid_forcing_field[...] = 0.0
+                it()
+                it.compute_flow_forces_and_torques()
+            cases += 1
+            info = {"body": name, "dim": dim, "reset": reset, "grid": list(shape)}
+            vol = float(sim.dx) ** dim
+            fluid = sim.eul_grid_forcing_field.reshape(dim, -1).sum(axis=1) * vol
+            bodyF = it.body_flow_forces.sum(axis=1)[:dim]
+            scale = 1.0 + np.abs(it.lag_grid_forcing_field).sum()
+            if np.abs(fluid + bodyF).max() > 1e-9 * scale:
+                return cases, {"oracle": "c08", "what": "C08 grid integral of the force density applied to the fluid + net force on the body != 0 "
+                               "after a full interaction (real simulator + interactor)", **info, "fluid": fluid.tolist(), "body": bodyF.tolist()}
+            ff = FlowForces(it)
+            pre_f = r.normal(size=body.external_forces.shape); pre_t = r.normal(size=body.external_torques.shape)
+            body.external_forces[...] = pre_f; body.external_torques[...] = pre_t
+            with warnings.catch_warnings():
+                warnings.simplefilter("ignore")
+                ff.apply_forces(body, time=0.0)
+            if not (np.allclose(body.external_forces - pre_f, it.body_flow_forces, rtol=0, atol=1e-12 * scale)
+                    and np.allclose(body.external_torques - pre_t, it.body_flow_torques, rtol=0, atol=1e-12 * scale)):
+                return cases, {"oracle": "c08", "what": "C08 FlowForces.apply_forces does not ADD exactly the transferred wrench to the body's external forces / torques", **info}
+    return cases, None
+
+
 def run_c08(seed=0, tier="quick", aimed=None):
-    return run(seed, tier, aimed, which=("c08",))
+    res = run(seed, tier, aimed, which=("c08",))
+    if res["ok"]:
+        n, bad = pipeline(seed, tier)
+        res["cases"] += n
+        if bad is not None:
+            res.update(ok=False, failing_input=bad)
+    return res
 
 
 def run_c09(seed=0, tier="quick", aimed=None):
